@@ -302,11 +302,12 @@ func replay(o *hlib.Out, path string) {
 			}
 			nstCase(o, ws[1], hlib.UnHex(ws[2]), ws[3], hlib.UnHex(ws[4]), strings.Join(ws[5:], " "))
 		case "mdl":
-			if len(ws) != 3 || ws[1] != "tar" {
+			v, err := strconv.Atoi(ws[2])
+			if len(ws) < 4 || ws[1] != "tar" || err != nil {
 				o.Case(l, "badreplay")
 				continue
 			}
-			mdlTarRun(o, [][]byte{hlib.UnHex(ws[2])}, []string{"mdltar.replay"})
+			mdlTarRun(o, []mdlTar{{v, hlib.UnHex(ws[3]), strings.Join(ws[4:], " "), "mdltar.replay"}})
 		case "zlb":
 			if len(ws) != 5 {
 				o.Case(l, "badreplay")
